@@ -45,14 +45,14 @@ def getGroup (j : Json) : R (String × List Int) := do
 
 /-- [gene, chrom, s, e, log2|null, depth, weight, probes, segment_weight|null, segment_probes|null] -/
 def growJ (r : GRow) : Json :=
-  arrJ [strJ r.gene, strJ r.chrom, intJ r.s, intJ r.e, optRatJ r.log2, ratJ r.depth, ratJ r.weight,
+  arrJ [strJ r.gene, strJ r.chrom, intJ r.s, intJ r.e, optRatJ r.log2, optRatJ r.depth, ratJ r.weight,
         natJ r.probes, optRatJ r.segWeight, optIntJ r.segProbes]
 
 def getGRow (j : Json) : R GRow := do
   let a ← getArr j
   if a.size < 10 then throw "genemetrics row needs 10 fields"
   pure { gene := ← getStr a[0]!, chrom := ← getStr a[1]!, s := ← getInt a[2]!, e := ← getInt a[3]!,
-         log2 := ← getOptRat a[4]!, depth := ← getRat a[5]!, weight := ← getRat a[6]!,
+         log2 := ← getOptRat a[4]!, depth := ← getOptRat a[5]!, weight := ← getRat a[6]!,
          probes := ← getNat a[7]!, segWeight := ← getOptRat a[8]!, segProbes := ← getOptInt a[9]! }
 
 /-- squash rows: [chrom, s, e, gene, log2, depth, weight] -/
@@ -110,13 +110,12 @@ def byGeneSpec (ign : List String) (t : List Bin) (impl : List (String × List I
   flagIf ((gs.filter isAT).all atOk && noTwoAT gs) "antitarget_stretches"
 
 /-- the rows the property promises for a list of gene groups -/
-def wantedRows (groups : List (String × List Bin)) (skipLow : Bool) : Except Err (List GRow) := do
-  let rows ← (groups.filter (fun p => p.1 != "" && !p.2.isEmpty)).mapM (fun p => groupRow p.1 p.2 skipLow)
-  pure (rows.filterMap id)
+def wantedRows (groups : List (String × List Bin)) (skipLow : Bool) : List GRow :=
+  (groups.filter (fun p => p.1 != "" && !p.2.isEmpty)).filterMap (fun p => groupRow p.1 p.2 skipLow)
 
 def sameGRow (a b : GRow) : Bool :=
   a.gene == b.gene && a.chrom == b.chrom && a.s == b.s && a.e == b.e && a.probes == b.probes &&
-  genesCloseOpt a.log2 b.log2 && genesCloseRat a.depth b.depth && genesCloseRat a.weight b.weight &&
+  genesCloseOpt a.log2 b.log2 && genesCloseOpt a.depth b.depth && genesCloseRat a.weight b.weight &&
   genesCloseOpt a.segWeight b.segWeight && a.segProbes == b.segProbes
 
 def keyOf (r : GRow) : String × String × Int × Int := (r.chrom, r.gene, r.s, r.e)
@@ -125,34 +124,30 @@ def keyOf (r : GRow) : String × String × Int × Int := (r.chrom, r.gene, r.s, 
 def metricsSpecByGene (t : List Bin) (thr : Rat) (minProbes : Nat) (skipLow : Bool) (impl : List GRow) :
     List String :=
   let ign := fullIgnore defaultIgnore
-  match wantedRows ((byChrom t).flatMap (fun c => expectedGenes ign c.2)) skipLow with
-  | .error _ => []
-  | .ok all =>
-    let want := all.filter (fun r => reaches r.log2 thr && decide (r.probes ≥ minProbes))
-    let sel := (impl.map (fun r => (r.chrom, r.gene))) == (want.map (fun r => (r.chrom, r.gene)))
-    let rowsOk := impl.all (fun r => match want.find? (fun w => w.chrom == r.chrom && w.gene == r.gene) with
-      | some w => sameGRow r w
-      | none => true)
-    flagIf sel "genemetrics_selection" ++ flagIf rowsOk "genemetrics_row_exact"
+  let all := wantedRows ((byChrom t).flatMap (fun c => expectedGenes ign c.2)) skipLow
+  if all.any (fun r => r.depth.isNone) then [] else
+  let want := all.filter (fun r => reaches r.log2 thr && decide (r.probes ≥ minProbes))
+  let sel := (impl.map (fun r => (r.chrom, r.gene))) == (want.map (fun r => (r.chrom, r.gene)))
+  let rowsOk := impl.all (fun r => match want.find? (fun w => w.chrom == r.chrom && w.gene == r.gene) with
+    | some w => sameGRow r w
+    | none => true)
+  flagIf sel "genemetrics_selection" ++ flagIf rowsOk "genemetrics_row_exact"
 
 /-- genemetrics with segments: for each segment reaching the threshold, the part of every gene
     inside it, with the segment's log2 -/
 def metricsSpecBySegment (t : List Bin) (segs : List SegRow) (thr : Rat) (minProbes : Nat)
     (skipLow : Bool) (impl : List GRow) : List String :=
   let ign := fullIgnore defaultIgnore
-  let parts : Except Err (List (List GRow)) :=
-    ((segsInOrder segs).filter (fun sg => decide (ratAbs sg.log2 ≥ thr))).mapM (fun sg => do
-      let rows ← wantedRows (expectedGenes ign (binsOfSegment t sg)) skipLow
-      pure (rows.map (fun (r : GRow) => { r with log2 := some sg.log2, segWeight := sg.weight, segProbes := sg.probes })))
-  match parts with
-  | .error _ => []
-  | .ok ps =>
-    let all := ps.flatten
-    let want := if minProbes == 0 then all else all.filter (fun r => match r.segProbes with
-      | some p => decide (p ≥ (minProbes : Int))
-      | none => decide (r.probes ≥ minProbes))
-    let ok := impl.length == want.length && (impl.zip want).all (fun p => sameGRow p.1 p.2)
-    flagIf ok "by_segment_parts"
+  let all : List GRow :=
+    ((segsInOrder segs).filter (fun sg => decide (ratAbs sg.log2 ≥ thr))).flatMap (fun sg =>
+      (wantedRows (expectedGenes ign (binsOfSegment t sg)) skipLow).map
+        (fun (r : GRow) => { r with log2 := some sg.log2, segWeight := sg.weight, segProbes := sg.probes }))
+  if all.any (fun r => r.depth.isNone) then [] else
+  let want := if minProbes == 0 then all else all.filter (fun r => match r.segProbes with
+    | some p => decide (p ≥ (minProbes : Int))
+    | none => decide (r.probes ≥ minProbes))
+  let ok := impl.length == want.length && (impl.zip want).all (fun p => sameGRow p.1 p.2)
+  flagIf ok "by_segment_parts"
 
 /-- squash_genes: one row per gene from its first bin's start to its last bin's end; the other
     bins as they are (or one row per stretch when `squash_antitarget`) -/
@@ -231,6 +226,9 @@ def handleGenes (op : String) (inp : Json) (impl : Option Json) : R (Option Json
     let skipLow ← getBool (← fld inp "skip_low")
     let hapX ← getBool (← fld inp "hapx")
     let isXX ← getOptBool ((optFld inp "female").getD Json.null)
+    let pre ← (match optFld inp "prefix" with
+      | some j => getBool j
+      | none => pure false)
     let t' := shiftBins t hapX isXX
     let segs' := segs.map (fun sg => shiftSegs sg hapX isXX)
     let bySeg := match segs with
@@ -240,12 +238,7 @@ def handleGenes (op : String) (inp : Json) (impl : Option Json) : R (Option Json
     -- distance of every threshold comparison to its boundary
     let slack : Rat :=
       if bySeg then genesMinSlack ((segs'.getD []).map (fun sg => ratAbs (ratAbs sg.log2 - thr)))
-      else match groupByGenes t' skipLow with
-        | .ok rows => genesMinSlack (rows.filterMap (fun r => r.log2.map (fun v => ratAbs (ratAbs v - thr))))
-        | .error _ => 1
-    let pre ← (match optFld inp "prefix" with
-      | some j => getBool j
-      | none => pure false)
+      else genesMinSlack ((groupByGenes t' skipLow pre).filterMap (fun r => r.log2.map (fun v => ratAbs (ratAbs v - thr))))
     let out := doGenemetrics t segs thr minProbes skipLow hapX isXX pre
     let spec ← (match impl with
       | none => pure Json.null
